@@ -29,7 +29,7 @@ Ra == <<97>>   Rb == <<98>>   Re == <<195, 169>>   Rz == <<228, 184, 173>>   Rs 
 Rf == <<239, 191, 189>>   Rg == <<240, 159, 152, 128>>
 \* pattern pool: prefixes / suffixes / infixes of each other, every rune width; "aab" contains two disjoint
 \* occurrences of "a" and ends after both (the interval-merge case of C06)
-Pool == << Ra, Ra \o Rb, Rb, Rb \o Ra, Ra \o Rb \o Ra, Rz, Ra \o Rz, Rz \o Ra, Rs, Ra \o Rs, Re, Rf, Rg \o Ra, Ra \o Rb \o Rz, Rb \o Rz \o Rb, Ra \o Ra \o Rb >>
+Pool == << Ra, Ra \o Rb, Rb, Rb \o Ra, Ra \o Rb \o Ra, Rz, Ra \o Rz, Rz \o Ra, Rs, Ra \o Rs, Re, Rf, Rg \o Ra, Ra \o Rb \o Rz, Rb \o Rz \o Rb, Ra \o Ra \o Rb, Rb \o Ra \o Rb \o Ra >>
 PatSets == {S \in SUBSET (1..Len(Pool)) : S # {} /\ Cardinality(S) <= MaxSet}
 SX == INSTANCE SequencesExt
 AsSeq(S) == SX!SetToSortSeq(S, LAMBDA a, b : a < b)
@@ -60,7 +60,17 @@ KeyPool == UNION {{SubSeq(Pool[i], 1, n) : n \in 0..Len(Pool[i])} : i \in 1..Len
 KeyCases == \A S \in PatSets : LET P == PatOf(S) IN
     \A k \in KeyPool : Emit([fn |-> "key", s |-> k, a |-> P, out |-> AsSeq({i \in 1..Len(P) : IsPrefix(k, P[i])})])
 
+\* wide tries: the breadth-first construction of the failure links runs through a ring queue that grows; with k
+\* siblings below "a" (and "b" popped first, so the ring is rotated) the growth happens while the queue is wrapped
+WidePats(k) == <<Rb>> \o [i \in 1..k |-> <<97, 98 + i, 120>>]
+WideCases == \A k \in {9, 10, 11, 12, 20} : LET P == WidePats(k) IN
+    \A i \in 1..k : \A t \in {<<45, 45>> \o P[i + 1] \o <<45>>, P[i + 1] \o Rb \o P[((i % k) + 1) + 1]} :
+        LET oc == Occ(P, t) IN
+        Emit([fn |-> "text", s |-> t, a |-> P,
+              out |-> [match |-> oc # {}, occ |-> AsSeq({o[1] * 100 + o[2] : o \in oc}),
+                       runs |-> AsSeq({r[1] * 10000 + r[2] * 100 + r[3] : r \in Runs(P, t)})]])
 ASSUME TextCases
+ASSUME Mode = "valid" => WideCases
 ASSUME Mode = "valid" => KeyCases
 Init == x = 0
 Next == x' = x
